@@ -5,7 +5,7 @@ cd /verif
 if [ -n "$(git -C /repo status --porcelain)" ]; then echo "/repo not clean"; exit 9; fi
 git -C /repo apply "$S/patch.diff" || { echo "patch does not apply"; exit 9; }
 find /repo/soupsieve -name __pycache__ -prune -exec rm -rf {} + 2>/dev/null
-./vcheck $P $T > /tmp/seeded_$1_$P.out 2>&1; rc=$?
+VERIF_EVIDENCE_DIR=/tmp/seeded_evidence ./vcheck $P $T > /tmp/seeded_$1_$P.out 2>&1; rc=$?
 git -C /repo checkout -- . ; find /repo/soupsieve -name __pycache__ -prune -exec rm -rf {} + 2>/dev/null
 grep -E "^(VIOLATION|UNDECIDED|ENGINE-ERROR)" /tmp/seeded_$1_$P.out | cut -c1-230 | head -5
 tail -1 /tmp/seeded_$1_$P.out | cut -c1-200
